@@ -107,6 +107,8 @@ func runC17(c *an.Ctx) {
 	ruleN3(c)
 	ruleN4(c)
 	ruleN5(c)
+	ruleN6(c)
+	ruleN7(c)
 }
 
 func ruleN1(c *an.Ctx) {
@@ -451,6 +453,7 @@ func runC07(c *an.Ctx) {
 	ruleT4(c)
 	ruleT5(c)
 	ruleT6(c)
+	ruleTopoIndex(c, "T7")
 }
 
 func ruleT2(c *an.Ctx) {
